@@ -145,9 +145,11 @@ pub fn case_json(ctx: &mut Ctx, case: &Case) -> Value {
     let mut texts: BTreeSet<String> = BTreeSet::new();
     for (path, text) in &case.files {
         let mut nodes_json = vec![];
+        let mut tree_json = Value::Null;
         if let Some(t) = text {
             if let Some(ext) = ext_for(ctx, path, &case.extra) {
                 let nodes = ts::nodes(&ext, &ctx.grammars, t);
+                tree_json = ts::tree(&ext, &ctx.grammars, t).unwrap_or(Value::Null);
                 // candidate contents: between the end of comment i and the start of comment j > i
                 // (a block's content starts after a comment holding a start tag and ends before one holding an end tag)
                 if !case.patterns.is_empty() {
@@ -173,7 +175,9 @@ pub fn case_json(ctx: &mut Ctx, case: &Case) -> Value {
                 nodes_json = nodes.iter().map(|(s, e, k)| json!([s, e, k])).collect();
             }
         }
-        files.push(json!({"path": path, "text": text, "nodes": nodes_json}));
+        let mut fj = json!({"path": path, "text": text, "nodes": nodes_json});
+        if !tree_json.is_null() { fj["tree"] = tree_json; }
+        files.push(fj);
     }
     let regex: Vec<Value> = case.patterns.iter().collect::<BTreeSet<_>>().into_iter().map(|p| regex_entry(p, &texts)).collect();
     let mut j = json!({
@@ -464,6 +468,11 @@ pub fn replay(path: &str, out: &str, no_impl: bool) -> anyhow::Result<()> {
         match j.get("op").and_then(|v| v.as_str()) {
             Some("glob") => {
                 let ij = if no_impl { json!({"skipped": true}) } else { crate::gen_glob::real(&strs("globs"), &strs("ignores"), j["path"].as_str().unwrap_or("")) };
+                rows.push((j.clone(), ij));
+                continue;
+            }
+            Some("tags") => {
+                let ij = if no_impl { json!({"skipped": true}) } else { crate::gen_tags::real(j["text"].as_str().unwrap_or("")) };
                 rows.push((j.clone(), ij));
                 continue;
             }
